@@ -22,9 +22,10 @@ NPROC = int(os.environ.get("VERIF_PROCS", "0")) or min(16, os.cpu_count() or 4)
 # histories per tier, number of distinct hash seeds (workers), watchdog seconds
 TIERS = {
     "C07": {"quick": (2304, 16, 600), "thorough": (46080, 64, 3600)},
-    "C19": {"quick": (6144, 16, 600), "thorough": (122880, 64, 3600)},
+    "C19": {"quick": (4096, 16, 600), "thorough": (122880, 64, 3600)},
     "C20": {"quick": (16384, 16, 600), "thorough": (327680, 64, 3600)},
 }
+TRACE_RUNS = {"C07": 16, "C19": 64, "C20": 192}  # histories executed by the traced (reach-probe) worker
 BLOCK = 16  # consecutive run indices (one full subject-type rotation) per deal
 
 RULES = {
@@ -214,7 +215,7 @@ def run_check(prop, tier):
         for nm, hs in (("detA", hs_a), ("detB", hs_a), ("detC", hs_c)):
             jobs.append((nm, {"mode": "run", "property": prop, "verif_seed": vseed, "tier": tier, "indices": mini, "worker": -1, "emit_chain": True}, hs))
         # reach probe: one small traced worker
-        jobs.append(("trace", {"mode": "run", "property": prop, "verif_seed": vseed, "tier": tier, "indices": list(range(BLOCK, 2 * BLOCK)), "worker": -2, "trace": True}, seeds.hash_seed(vseed, prop, trace_worker)))
+        jobs.append(("trace", {"mode": "run", "property": prop, "verif_seed": vseed, "tier": tier, "indices": list(range(BLOCK, BLOCK + TRACE_RUNS[prop])), "worker": -2, "trace": True}, seeds.hash_seed(vseed, prop, trace_worker)))
         res = run_jobs(workdir, jobs, watchdog)
 
         det = _determinism_verdict(res)
